@@ -89,6 +89,10 @@ struct Pool {
 
   typedef std::set<Edge*, WeightedEdgeCmp> DelayedEdges;
   DelayedEdges delayed_;
+
+#ifdef NINJA_VERIF
+  friend struct VerifAccess;
+#endif
 };
 
 /// Global state (file status) for a single run.
